@@ -201,7 +201,15 @@ def get_stage(R, keep_workspace=False):
                 info.setdefault("blueprint_builder_panics", []).extend(bp_panics)
                 batch = [p for p in batch if p["name"] not in bp_panics]
             t1 = time.time()
-            res = ws.pavexc_all([p["name"] for p in batch])
+            must = {p["name"] for p in batch if p["klass"] == "inclass" or (p.get("meta") or {}).get("expect") == "accept"}
+            res = ws.pavexc_all([p["name"] for p in batch], must_accept=must)
+            for p in batch:
+                fa = res[p["name"]].get("first_attempt")
+                if fa is not None:
+                    same = (fa["rc"] == res[p["name"]]["rc"] and fa["panicked"] == res[p["name"]]["panicked"])
+                    info.setdefault("repeated_alone", []).append({"program": p["name"], "first_rc": fa["rc"], "first_panicked": fa["panicked"],
+                                                                  "alone_rc": res[p["name"]]["rc"], "same_outcome": same,
+                                                                  "first_tail": "" if same else fa["out_tail"][-400:]})
             t2 = time.time()
             accepted = [p["name"] for p in batch if res[p["name"]]["rc"] == 0]
             cc = ws.cargo_check(accepted)
